@@ -215,6 +215,8 @@ func runC10(c *Ctx) {
 	if ci == nil {
 		return
 	}
+	c.L.Floor("C10.insert-atomic", 2)
+	c10InsertAtomic(c, c.fn("cache", "cache.Set"))
 	for _, fn := range ci.fns {
 		if ci.helper[fn] || fn.Name() == "structPtr" {
 			continue // helpers run in their caller's critical section
@@ -1866,4 +1868,102 @@ func nodeOfLink(v ssa.Value) ssa.Value {
 		}
 	}
 	return nil
+}
+
+// c10InsertAtomic: a new element becomes visible in one critical section.  The
+// link into the usage list (listAppend of the new item's node) and the store
+// into the key map of the same item are not separated by an Unlock on any path
+// — in between, another goroutine would find the element in one structure and
+// not in the other (an eviction would unlink and "free" bytes never counted).
+func c10InsertAtomic(c *Ctx, set *ssa.Function) {
+	const rule = "C10.insert-atomic"
+	if set == nil {
+		return
+	}
+	var pubs []ssa.Instruction
+	core.EachInstr(set, func(in ssa.Instruction) {
+		switch x := in.(type) {
+		case *ssa.MapUpdate:
+			if _, isAlloc := core.Unwrap(x.Value).(*ssa.Alloc); isAlloc {
+				pubs = append(pubs, x)
+			}
+		case *ssa.Call:
+			if cal := x.Call.StaticCallee(); cal != nil && cal.Name() == "listAppend" && len(x.Call.Args) == 2 {
+				if fa, ok := x.Call.Args[0].(*ssa.FieldAddr); ok {
+					if _, isAlloc := core.Unwrap(fa.X).(*ssa.Alloc); isAlloc {
+						pubs = append(pubs, x)
+					}
+				}
+			}
+		}
+	})
+	if len(pubs) < 2 {
+		c.undecided(rule, set, "the link of the new item into the usage list and its store into the map", nil, sprintf("found %d of the two publication sites", len(pubs)))
+		return
+	}
+	isPub := map[ssa.Instruction]bool{}
+	for _, p := range pubs {
+		isPub[p] = true
+	}
+	isUnlock := func(in ssa.Instruction) bool {
+		call, ok := in.(*ssa.Call)
+		if !ok {
+			return false
+		}
+		n := core.CalleeName(&call.Call)
+		return strings.HasSuffix(n, ".Unlock") || strings.HasSuffix(n, ".RUnlock")
+	}
+	for _, from := range pubs {
+		// forward exploration (back edges included) with the state "an Unlock
+		// has been passed"; it stops at the other publication sites
+		type st struct {
+			b        *ssa.BasicBlock
+			i        int
+			unlocked bool
+		}
+		seen := map[st]bool{}
+		var bad ssa.Instruction
+		var unlockAt ssa.Instruction
+		idxOf := func(in ssa.Instruction) int {
+			for i, x := range in.Block().Instrs {
+				if x == in {
+					return i
+				}
+			}
+			return 0
+		}
+		work := []st{{from.Block(), idxOf(from) + 1, false}}
+		for len(work) > 0 && bad == nil {
+			cur := work[len(work)-1]
+			work = work[:len(work)-1]
+			if seen[cur] {
+				continue
+			}
+			seen[cur] = true
+			unlocked := cur.unlocked
+			stop := false
+			for i := cur.i; i < len(cur.b.Instrs); i++ {
+				in := cur.b.Instrs[i]
+				if isUnlock(in) {
+					unlocked = true
+					unlockAt = in
+				}
+				if isPub[in] && in != from {
+					if unlocked {
+						bad = in
+					}
+					stop = true
+					break
+				}
+			}
+			if stop {
+				continue
+			}
+			for _, s := range cur.b.Succs {
+				work = append(work, st{s, 0, unlocked})
+			}
+		}
+		c.check(bad == nil, rule, set, "no Unlock between the link of the new item and its store into the map", from,
+			sprintf("in between the element is in one structure and not in the other (Unlock at %s)", c.ipos(unlockAt)))
+	}
 }
